@@ -263,6 +263,12 @@ def run(case, rec):
         else:
             variants["2-D row"] = lambda a: a.reshape(1, -1)
             variants["2-D column"] = lambda a: a.reshape(-1, 1)
+        if npts % 4 == 0:
+            # arrays with three dimensions (seed C04-14: point pairs built with dstack)
+            variants["3-D"] = lambda a: a.reshape(2, 2, -1)
+            variants["3-D Fortran"] = lambda a: np.asfortranarray(a.reshape(2, 2, -1))
+        variants["3-D (1, 1, n)"] = lambda a: a.reshape(1, 1, -1)
+        variants["3-D (n, 1, 1)"] = lambda a: a.reshape(-1, 1, 1)
         variants["strided view"] = lambda a: np.repeat(a, 3)[::3]
         variants["reversed-twice view"] = lambda a: a[::-1].copy()[::-1]
         variants["pandas Series (non-default index)"] = lambda a: pd.Series(a.copy(), index=np.arange(a.size)[::-1] * 3 + 5)
